@@ -6,6 +6,9 @@
  *
  * output, Q case (address a = local "@" domain):
  *   Q <local> <domain> <quote_need> <quote(local)> <quote2(a)> <parse rc> <tokens> <unquote> <addrmangle(a)> <verb> <addrparse rc> <addr>
+ *     <addrlist rc> <callback addresses>  <rcpt verb> <rcpt addrparse rc> <rcpt addr>
+ *     addrlist = token822_addrlist on the field "T" ":" <tokens> (the header round trip carried through the address-list parser)
+ *     rcpt …   = the same for the line "RCPT TO:<mangled>\r\n" (verb = 1 if dispatched to the rcpt handler)
  *     tokens = '/'-separated, each a type letter (a q l c < > @ , ; : .) followed by the hex content for a q l c; "-" if none
  *     verb   = 1 if commands() dispatched "MAIL FROM:<mangled>\r\n" to the mail handler, else 0
  * output, P case (string s, unparse line length n):
@@ -66,8 +69,9 @@ static ssize_t memread(int fd, char *buf, size_t len) {
 }
 static int cap_verb, cap_rc; static hbuf cap_addr;
 static void cap_mail(char *arg) { cap_verb = 1; cap_rc = addrparse(arg); hbuf_reset(&cap_addr); if (addr.len) hbuf_add(&cap_addr, addr.s, addr.len - 1); }
+static void cap_rcpt(char *arg) { cap_verb = 2; cap_rc = addrparse(arg); hbuf_reset(&cap_addr); if (addr.len) hbuf_add(&cap_addr, addr.s, addr.len - 1); }
 static void cap_other(char *arg) { cap_verb = 0; }
-static struct commands ct[] = { { "mail", cap_mail, 0 }, { 0, cap_other, 0 } };
+static struct commands ct[] = { { "mail", cap_mail, 0 }, { "rcpt", cap_rcpt, 0 }, { 0, cap_other, 0 } };
 
 static void print_toks(token822_alloc *ta) {
   static const char tl[] = "?aqlc<>@,;:.";
@@ -87,6 +91,19 @@ static void sa_set(stralloc *sa, const unsigned char *p, size_t n) {
   if (!stralloc_copyb(sa, (char *)p, n)) abort();
 }
 
+static hbuf gotbuf;
+static int ncb;
+static int cb_record(token822_alloc *ta);
+/* one command line through the real commands() */
+static void run_cmd(const char *verb, stralloc *m) {
+  static hbuf line; hbuf_reset(&line);
+  hbuf_add(&line, verb, strlen(verb)); hbuf_add(&line, m->s, m->len); hbuf_add(&line, ">\r\n", 3);
+  static char ssb[512]; substdio ss;
+  mr_p = line.p; mr_n = line.n; mr_pos = 0;
+  substdio_fdbuf(&ss, memread, -1, ssb, sizeof ssb);
+  cap_verb = 0; cap_rc = -1; hbuf_reset(&cap_addr);
+  commands(&ss, ct);
+}
 static void caseQ(const unsigned char *l, size_t ln, const unsigned char *d, size_t dn) {
   static unsigned char a[4200];
   if (ln + dn + 2 > sizeof a) return;
@@ -99,23 +116,31 @@ static void caseQ(const unsigned char *l, size_t ln, const unsigned char *d, siz
   int prc = token822_parse(&t_a, &s_q2, &s_buf);
   if (prc == 1) { if (token822_unquote(&s_uq, &t_a) != 1) abort(); } else { t_a.len = 0; s_uq.len = 0; }
   addrmangle(&s_m, (char *)a);
+  /* the header round trip carried through token822_addrlist: field "T" ":" <tokens>, recording callback */
+  static token822_alloc t_q = {0};
+  int arc = 0; hbuf_reset(&gotbuf); ncb = 0;
+  if (prc == 1) {
+    if (!token822_ready(&t_q, t_a.len + 3)) abort();
+    t_q.len = 0;
+    t_q.t[t_q.len].type = TOKEN822_ATOM; t_q.t[t_q.len].s = "T"; t_q.t[t_q.len].slen = 1; t_q.len++;
+    t_q.t[t_q.len].type = TOKEN822_COLON; t_q.t[t_q.len].s = 0; t_q.t[t_q.len].slen = 0; t_q.len++;
+    for (int i = 0; i < t_a.len; i++) t_q.t[t_q.len++] = t_a.t[i];
+    arc = token822_addrlist(&t_out, &t_addr, &t_q, cb_record);
+  }
   /* the line qmail-remote sends, through the real commands() and addrparse() */
-  static hbuf line; hbuf_reset(&line);
-  hbuf_add(&line, "MAIL FROM:<", 11); hbuf_add(&line, s_m.s, s_m.len); hbuf_add(&line, ">\r\n", 3);
-  static char ssb[512]; substdio ss;
-  mr_p = line.p; mr_n = line.n; mr_pos = 0;
-  substdio_fdbuf(&ss, memread, -1, ssb, sizeof ssb);
-  cap_verb = 0; cap_rc = -1; hbuf_reset(&cap_addr);
-  commands(&ss, ct);
+  run_cmd("MAIL FROM:<", &s_m);
   fputs("Q ", h_out); h_hex(l, ln); fputc(' ', h_out); h_hex(d, dn);
   fprintf(h_out, " %d ", need); h_hex((unsigned char *)s_q.s, s_q.len); fputc(' ', h_out);
   h_hex((unsigned char *)s_q2.s, s_q2.len); fprintf(h_out, " %d ", prc); print_toks(&t_a); fputc(' ', h_out);
   h_hex((unsigned char *)s_uq.s, s_uq.len); fputc(' ', h_out); h_hex((unsigned char *)s_m.s, s_m.len);
-  fprintf(h_out, " %d %d ", cap_verb, cap_rc); h_hex(cap_addr.p, cap_addr.n); fputc('\n', h_out);
+  fprintf(h_out, " %d %d ", cap_verb == 1, cap_rc); h_hex(cap_addr.p, cap_addr.n);
+  fprintf(h_out, " %d ", arc);
+  if (gotbuf.n) fwrite(gotbuf.p, 1, gotbuf.n, h_out); else fputc('-', h_out);
+  /* …and the RCPT TO line for the same address */
+  run_cmd("RCPT TO:<", &s_m);
+  fprintf(h_out, " %d %d ", cap_verb == 2, cap_rc); h_hex(cap_addr.p, cap_addr.n); fputc('\n', h_out);
 }
 
-static hbuf gotbuf;
-static int ncb;
 static int cb_record(token822_alloc *ta) {
   /* identity callback: record the (reversed) address it is given */
   FILE *save = h_out;
